@@ -310,6 +310,22 @@ class PolyOneOverXRect(PolyGenerator):
     It looks like we can directly instantiate a Chebyshev expansion object. This can be paired with the chebfit method to directly determine coefficients.
 """
 
+def _argmax_abs(poly):
+    '''
+    Location of the global maximum of |poly| on [-1, 1] (as a length-1 array):
+    dense Chebyshev grid followed by a bounded local refinement.
+    '''
+    deg = len(poly.coef) - 1
+    xs = np.polynomial.chebyshev.chebpts2(max(200, 64 * (deg + 1)))
+    vals = np.abs(poly(xs))
+    i = int(np.argmax(vals))
+    lo, hi = xs[max(i - 1, 0)], xs[min(i + 1, len(xs) - 1)]
+    res = scipy.optimize.minimize_scalar(
+        lambda x: -abs(poly(x)), bounds=(lo, hi), method='bounded')
+    x = res.x if abs(poly(res.x)) >= vals[i] else xs[i]
+    return np.array([x])
+
+
 class PolyTaylorSeries(PolyGenerator):
     '''
     Base class for PolySign and PolyThreshold
@@ -347,8 +363,7 @@ class PolyTaylorSeries(PolyGenerator):
 
             # Determine maximum over interval and rescale.
             if ensure_bounded:
-                res = scipy.optimize.minimize(-1*cheb_poly, (0.1,), bounds=[(-1, 1)])
-                pmax = res.x
+                pmax = _argmax_abs(cheb_poly)
                 scale = 1 / abs(cheb_poly(pmax))
                 scale = scale * max_scale
                 print(f"[PolyTaylorSeries] (Cheb) max {scale} is at {pmax}: normalizing")
@@ -371,8 +386,7 @@ class PolyTaylorSeries(PolyGenerator):
             the_poly = approximate_taylor_polynomial(func, 0, degree, 1)
             the_poly = np.polynomial.Polynomial(the_poly.coef[::-1])
             if ensure_bounded:
-                res = scipy.optimize.minimize(-the_poly, (0.1,), bounds=[(-1, 1)])
-                pmax = res.x
+                pmax = _argmax_abs(the_poly)
                 scale = 1 / abs(the_poly(pmax))
                 # use this for the new QuantumSignalProcessingWxPhases code, which
                 # employs np.polynomial.chebyshev.poly2cheb(pcoefs)
